@@ -221,6 +221,21 @@ pub fn timestamp_duration_since(later: u64, earlier: u64, frequency: u64) -> u12
         .picos
 }
 
+/// The elapsed time of a sample as the sampling loop computes it:
+/// `RawSample::duration` of a sample with the given TSC readings.
+pub fn raw_sample_duration(start: u64, end: u64, frequency: u64) -> u128 {
+    let frequency = NonZeroU64::new(frequency).expect("frequency");
+    crate::stats::RawSample {
+        start: crate::time::Timestamp::Tsc(TscTimestamp { value: start }),
+        end: crate::time::Timestamp::Tsc(TscTimestamp { value: end }),
+        timer: Timer::Tsc { frequency },
+        alloc_info: ThreadAllocInfo::new(),
+        counter_totals: [0; KnownCounterKind::COUNT],
+    }
+    .duration()
+    .picos
+}
+
 pub fn fine_duration_from(duration: Duration) -> u128 {
     FineDuration::from(duration).picos
 }
